@@ -1,3 +1,4 @@
 //! Reference models. None of them calls the code under test.
+pub mod conditions;
 pub mod int;
 pub mod treehash;
